@@ -206,7 +206,7 @@ def gen_nego(rng, tier):
             specials.append({"agent": [None, ag, None], "ehc": e, "sehc": {"period": jv_abs(), "limit": jv_abs()}, "group": "scale"})
     cases += specials
     # D: random combinations
-    n_rand = 400 if tier == "quick" else 6000
+    n_rand = 400 if tier == "quick" else 20000
     for _ in range(n_rand):
         e = None
         if rng.random() < 0.93:
@@ -310,7 +310,7 @@ def gen_res(rng, tier):
     for n in (0, 1, 4):
         res.append({"kind": kind(), "k": 0, "ops": adds(n), "split": n == 4, "model": True, "group": "sizes"})
     # merges of carried-over data: base reservoirs first (not judged for top-level coverage), then the merging one
-    for _ in range(40 if tier == "quick" else 300):
+    for _ in range(40 if tier == "quick" else 1000):
         kd = kind()
         k = rng.choice([0, 1, 2, 3, 5, 8, 16])
         others = []
@@ -372,7 +372,7 @@ def gen_tables(rng, tier):
                         st.append({"kind": "adds", "offers": offers(rng.choice([1, 3, k + 1]), rng.choice([0.0, 0.5, 1.0]), 1, 2 * n + 3)})
                     tables.append({"max": k, "stages": st, "group": "sizes"})
     # merges / carried-over tables
-    for _ in range(60 if tier == "quick" else 500):
+    for _ in range(60 if tier == "quick" else 1500):
         k = rng.choice([1, 2, 3, 5, 8])
         base = []
         for _j in range(rng.randint(1, 3)):
@@ -396,6 +396,10 @@ def gen_tables(rng, tier):
             tables.append({"max": k, "stages": [{"kind": "adds", "offers": distinct(1, 0.0, 50)}, {"kind": "mfail", "from": prev}],
                            "group": "chain"})
             prev = len(tables) - 1
+    # first-flag-wins witness (C05_forced_data_in_unforced_entry_can_be_lost) on the real MetricTable
+    tables.append({"max": 1, "stages": [{"kind": "adds", "offers": [[120, 0], [120, 1]]}], "group": "witness-base"})
+    tables.append({"max": 1, "stages": [{"kind": "adds", "offers": [[121, 0]]}, {"kind": "mfail", "from": len(tables) - 1}],
+                   "group": "witness"})
     # the real table of NewHarvest (2000)
     real = [(1999, 0.0), (2000, 0.0), (2001, 0.0), (6000, 0.02)] if tier == "quick" else \
            [(1999, 0.0), (2000, 0.0), (2001, 0.0), (2001, 0.05), (6000, 0.0), (6000, 0.02), (2100, 0.5)]
@@ -416,7 +420,7 @@ def harvest_prios(n):
 
 def gen_harvests(rng, tier):
     hs = []
-    for _ in range(12 if tier == "quick" else 80):
+    for _ in range(12 if tier == "quick" else 200):
         caps = [rng.choice([0, 1, 2, 5, 16, 33]) for _ in range(5)]
         ev = [rng.choice([0, 1, max(c - 1, 0), c, c + 1, 3 * c + 1]) for c in caps]
         n_unf = rng.choice([0, 5, 1999, 2000, 2001, 2050])
@@ -509,7 +513,7 @@ def nego_terms(cases, obs):
             det = "(Some (NegoDetail %s %s %s %s))" % (zl(o["limits"]), zl(o["periods"]), cZ(o["report"]), zl(o["agent"]))
         terms.append("(%s, %s, %s, %s, true)" % (coq_agent(c["agent"]), coq_reply(c), nego_obs_term(o), det))
         index.append((i, "direct"))
-        if c.get("e2e"):
+        if c.get("e2e") and o.get("e2e_state"):
             terms.append("(%s, %s, %s, %s, false)" % (coq_agent(c["agent"]), coq_reply(c), nego_obs_term(o, True), det))
             index.append((i, "processor"))
     return terms, index
@@ -779,13 +783,30 @@ def coverage(chk, inp, obs):
         chk.count_case(["res", r["kind"], r["k"], [(op["op"], op.get("p"), op.get("n")) for op in r["ops"]], r["split"]], nontrivial=ov)
     dist["res_overflowed"] = over
     dropped = 0
-    for t, oc in zip(inp["tables"], o["tables"]):
+    keysets = []
+    for t in inp["tables"]:
+        ks = set()
+        for stg in t["stages"]:
+            if stg["kind"] == "adds":
+                ks |= set(k for k, _f in stg["offers"])
+            else:
+                ks |= keysets[stg["from"]]
+        keysets.append(ks)
+    for t, oc, ks in zip(inp["tables"], o["tables"], keysets):
         g = t.get("group", "replay")
         dist["tables"][g] = dist["tables"].get(g, 0) + 1
-        d = bool(oc) and oc[-1]["dropped"] > 0
+        # more distinct keys offered (directly or through merged tables) than the capacity; judged on the inputs
+        # only: which offers are refused in a merge depends on Go's map iteration order
+        d = len(ks) > (2000 if t["max"] < 0 else t["max"])
         dropped += 1 if d else 0
         chk.count_case(["table", t["max"], t["stages"]], nontrivial=d)
-    dist["tables_with_refusals"] = dropped
+    dist["tables_over_capacity"] = dropped
+    for t, oc in zip(inp["tables"], o["tables"]):
+        if t.get("group") == "witness" and oc:
+            # informational (not a violation of the property as stated): a Forced contribution aggregated into an
+            # entry whose first contribution was unforced is refused with that entry by MergeFailed into a full table
+            chk.cov["forced_data_in_unforced_entry_lost_by_implementation"] = (
+                oc[-1]["dropped"] == 1 and [e[0] for e in oc[-1]["entries"]] == [121])
     for h, oc in zip(inp["harvests"], o["harvests"]):
         chk.count_case(["harvest", h["caps"], h["events"], len(h["metrics"]), h["errors"], h["slows"], h["traces"]],
                        nontrivial=any(e > c for e, c in zip(h["events"], h["caps"])) or oc["dropped"] > 0)
@@ -803,7 +824,9 @@ def coverage(chk, inp, obs):
         chk.sample({"reservoir": {"kind": inp["res"][-1]["kind"], "k": inp["res"][-1]["k"]},
                     "observed": {k: o["res"][-1][k] for k in ("seen", "saved", "cap", "hdr")}})
     if inp["tables"]:
-        chk.sample({"table_max": inp["tables"][-1]["max"], "observed_last_stage": {k: o["tables"][-1][-1][k] for k in ("count", "dropped", "failed")}})
+        last = o["tables"][-1][-1]
+        chk.sample({"table_max": inp["tables"][-1]["max"],
+                    "observed_last_stage": {"count_plus_dropped": last["count"] + last["dropped"], "failed": last["failed"]}})
     if inp["apps"]:
         chk.sample({"apps_offered_distinct": len(set(inp["apps"][0])), "tracked_max": max(o["apps"][0]["counts"] or [0]),
                     "preconnect_requests": o["apps"][0]["preconnect"]})
@@ -853,7 +876,7 @@ def run(chk, replay=None):
         "span_event_harvest_config), absent / null / wrongly typed members, wrapping periods, random combinations; a sample "
         "through a real Processor.  Non-trivial = a capacity or an advertised limit is lowered, or the reply refused.  "
         "Reservoirs / metric tables: sizes 0, 1, K-1, K, K+1, 3K for K in 0..100 (thorough ..200) and the real maxima, "
-        "forced/unforced mixes, merges and failed-harvest chains; non-trivial = overflowed (seen > held / numDropped > 0).  "
+        "forced/unforced mixes, merges and failed-harvest chains; non-trivial = overflowed (seen > held / more distinct metric keys offered than the capacity).  "
         "Harvests: offers to every container + createFinalMetrics.  Applications: 251+ distinct applications; non-trivial = "
         "more than 250 distinct keys.  Distinct by the case's inputs.")
     chk.cov["disagreements"] = {k: {"correspondence": len(v[0]), "monitor": len(v[1])} for k, v in results.items()}
